@@ -95,6 +95,24 @@ func runC05(c *Ctx) *Replay {
 			return c.shrinkAndReport(&x, viol)
 		}
 	}
+	// values with two map keys that are ONE date on the wire (position only: c05dup.go)
+	for i := range sc.Values {
+		if !b.Schema.HasDateKey(schema.Type{Named: sc.Types[i]}) {
+			continue
+		}
+		d := Scenario{Kind: "dupkeys", Prog: b.Prog.ID, Mask: b.Mask, PeerMask: -1, Type: sc.Types[i], Value: &sc.Values[i], Order: drawOrder(c.R),
+			Sched: drawSchedule(c.R, 0, nil), Reader: readerKinds[c.R.Intn(len(readerKinds))]}
+		viol := execDupKeys(c.N, &d)
+		if d.Extra["skipped"] != "" {
+			continue
+		}
+		c.Count("evaluations", 1)
+		c.Count("dup_date_keys", 1)
+		c.State("c05d", recordKind(b.Schema, sc.Types[i]), d.Reader)
+		if viol != nil {
+			return c.shrinkAndReport(&d, viol)
+		}
+	}
 	return nil
 }
 
